@@ -6,7 +6,7 @@ CLAIM = True
 MODULE = "SysLoss.Props.C03"
 THEOREMS = ["SysLoss.C03." + t for t in (
     "loop_spec", "solve_terminates", "solvePhase_sound", "solvePhase_error", "passive_ok_physical",
-    "source_ok_physical_partial", "source_ok_physical_full_fails")]
+    "source_ok_physical_partial", "source_ok_physical_full_fails", "exact_fixed_point_returns")]
 LEVEL_TEXT = ("Theorems (Lean 4) about the model of the sweep loop: it performs at most maxiter+1 sweeps (structural recursion); "
               "whatever it returns is a triple on which the exit test fired (never an intermediate iterate); the only other outcomes are "
               "RuntimeError and an exception raised by a voltage law; and a voltage law that returns for a passive series element "
